@@ -1,6 +1,6 @@
 (* Check/C10.v — correspondence: model output vs. what the Go code returned on the same input *)
 From Coq Require Import List String Ascii ZArith NArith Bool Arith.
-From YT Require Import Base.Str Base.KV Model.Doc Model.Dom Model.Pointer Check.Common.
+From YT Require Export Base.Str Base.KV Model.Doc Model.Dom Model.Pointer Check.Common.
 Import ListNotations.
 Local Open Scope list_scope.
 
